@@ -95,9 +95,21 @@ func rrSOA(owner string) dns.RR {
 		Serial: 666, Refresh: 3600, Retry: 600, Expire: 86400, Minttl: 300}
 }
 
-func sysNew(mode string, qmin int) {
+// fakeSig is an RRSIG over rr with a signature nobody can verify.
+func fakeSig(rr dns.RR, signer string) dns.RR {
+	h := rr.Header()
+	now := uint32(time.Now().Unix())
+	return &dns.RRSIG{
+		Hdr:         dns.RR_Header{Name: h.Name, Rrtype: dns.TypeRRSIG, Class: dns.ClassINET, Ttl: h.Ttl},
+		TypeCovered: h.Rrtype, Algorithm: dns.ECDSAP256SHA256, Labels: uint8(dns.CountLabel(h.Name)), OrigTtl: h.Ttl,
+		Expiration: now + 86400*30, Inception: now - 86400, KeyTag: 4242, SignerName: signer,
+		Signature: "c2lnbmF0dXJlLW5vYm9keS1jYW4tdmVyaWZ5LXNpZ25hdHVyZS1ub2JvZHktY2FuLXZlcmlmeS0wMDAwMDAwMA==",
+	}
+}
+
+func sysNew(mode string, qmin int, sec bool) {
 	sysClose()
-	w := l3.NewWorld(false)
+	w := l3.NewWorld(sec)
 	// a trap server stands behind loopback / local-interface addresses: the
 	// resolver must never send it anything.
 	trap := w.NewServer("trap")
@@ -110,8 +122,10 @@ func sysNew(mode string, qmin int) {
 			w.AddrMap[net.JoinHostPort(a.String(), "53")] = trap.Addr
 		}
 	}
-	w.AddZone("test.", l3.ZoneOpts{})
-	v := w.AddZone(victimZone, l3.ZoneOpts{})
+	// flavour "sec": signed root and test., victim.test. signed with a DS (secure),
+	// evil.test. unsigned below a signed parent = a proven insecure delegation
+	w.AddZone("test.", l3.ZoneOpts{Signed: sec, PublishDS: sec})
+	v := w.AddZone(victimZone, l3.ZoneOpts{Signed: sec, PublishDS: sec})
 	v.Add("www.victim.test. 300 IN A 198.18.0.80", "mail.victim.test. 300 IN A 198.18.0.25",
 		"victim.test. 300 IN MX 10 mail.victim.test.", "txt.victim.test. 300 IN TXT \"honest\"",
 		"alias.victim.test. 300 IN CNAME www.victim.test.")
@@ -160,12 +174,32 @@ func sysNew(mode string, qmin int) {
 		}
 		return nil
 	}})
-	s.p = l3.NewPipe(w, l3.PipeOpts{DNSSEC: false, Tweak: func(cfg *config.Config) { cfg.QnameMinLevel = qmin }})
+	s.p = l3.NewPipe(w, l3.PipeOpts{DNSSEC: sec, Tweak: func(cfg *config.Config) { cfg.QnameMinLevel = qmin }})
 	sys = s
 }
 
 // inAttackerZone: the attacker is authoritative for it, whatever he says there is his to say.
 func inAttackerZone(owner string) bool { return oInside(evilZone, lcn(owner)) }
+
+// genuine: rr is something a zone of the world that holds its owner really
+// publishes - a published record, or a signature made with that zone's key.
+func (s *sysState) genuine(rr dns.RR) bool {
+	if sig, ok := rr.(*dns.RRSIG); ok {
+		z := s.w.Zones[lcn(sig.SignerName)]
+		return z != nil && z.Signed && len(z.Keys) > 0 && z.Keys[0].Key.KeyTag() == sig.KeyTag && oInside(z.Name, lcn(rr.Header().Name))
+	}
+	switch rr.Header().Rrtype {
+	case dns.TypeNSEC, dns.TypeNSEC3, dns.TypeDNSKEY:
+		// denial proofs / keys of a signed zone: produced on the fly by the zone, never by the attacker's scripts
+		for _, z := range s.w.Zones {
+			if z.Signed && !inAttackerZone(z.Name) && oInside(z.Name, lcn(rr.Header().Name)) {
+				return true
+			}
+		}
+		return false
+	}
+	return s.w.Published(rr)
+}
 
 // judgeReply checks the client-visible reply against "nothing the attacker
 // said about names outside his zone is relayed".
@@ -177,7 +211,7 @@ func (s *sysState) judgeReply(where string, r *dns.Msg) string {
 		if rr.Header().Rrtype == dns.TypeOPT {
 			return false
 		}
-		return !inAttackerZone(rr.Header().Name) && !s.w.Published(rr)
+		return !inAttackerZone(rr.Header().Name) && !s.genuine(rr)
 	}
 	for _, rr := range r.Answer {
 		if bad(rr) {
@@ -247,7 +281,13 @@ func (s *sysState) victimCheck(name string, t uint16) (string, string) {
 	if r.Rcode != tr.Rcode {
 		return sum, fail("l3/victim/rcode-differs-from-truth", "%s/%d want=%s got=%s", name, t, dns.RcodeToString[tr.Rcode], dns.RcodeToString[r.Rcode])
 	}
-	if got, want := strings.Join(l3.SortRRs(r.Answer), "|"), strings.Join(l3.SortRRs(tr.Answer), "|"); got != want {
+	var plain []dns.RR
+	for _, rr := range r.Answer {
+		if rr.Header().Rrtype != dns.TypeRRSIG {
+			plain = append(plain, rr)
+		}
+	}
+	if got, want := strings.Join(l3.SortRRs(plain), "|"), strings.Join(l3.SortRRs(tr.Answer), "|"); got != want {
 		return sum, fail("l3/victim/answer-differs-from-truth", "%s/%d want=%s got=%s", name, t, strings.ReplaceAll(want, "\t", "_"), strings.ReplaceAll(got, "\t", "_"))
 	}
 	if pre == nil && after == before {
@@ -288,7 +328,7 @@ func (s *sysState) audit() string {
 			if m := s.cached(n, t); m != nil {
 				for _, sec := range [][]dns.RR{m.Answer, m.Ns, m.Extra} {
 					for _, rr := range sec {
-						if rr.Header().Rrtype != dns.TypeOPT && !s.w.Published(rr) {
+						if rr.Header().Rrtype != dns.TypeOPT && !s.genuine(rr) {
 							return fail("l3/audit/unpublished-record-cached-under-victim-name", "%s/%d %s", n, t, rrText(rr))
 						}
 					}
@@ -311,7 +351,7 @@ func (s *sysState) audit() string {
 			if m.Rcode == dns.RcodeSuccess && len(m.Answer) > 0 {
 				for _, sec := range [][]dns.RR{m.Ns, m.Extra} {
 					for _, rr := range sec {
-						if rr.Header().Rrtype != dns.TypeOPT && !inAttackerZone(rr.Header().Name) && !s.w.Published(rr) {
+						if rr.Header().Rrtype != dns.TypeOPT && !inAttackerZone(rr.Header().Name) && !s.genuine(rr) {
 							return fail("l3/audit/foreign-section-record-cached-with-positive-answer", "%s %s", q, rrText(rr))
 						}
 					}
@@ -467,6 +507,31 @@ func (s *sysState) attack(shape string, k int) (string, string) {
 		trigger = "c.evil.test."
 	case "cname-honest":
 		script(func(m *dns.Msg) { m.Answer = []dns.RR{rrCNAME(qn, "www.victim.test.")} })
+	// ---- the relay shapes again, dressed as signed data: an RRSIG (signer evil.test., arbitrary
+	// bytes) over the attacker's own record. An unsigned zone can put any signature in a reply;
+	// with no DS above it nothing is validated and the signature earns the message no trust.
+	case "sig-cname-forged":
+		script(func(m *dns.Msg) {
+			c := rrCNAME(qn, "www.victim.test.")
+			m.Answer = []dns.RR{c, fakeSig(c, evilZone), rrA("www.victim.test.", forgedIP)}
+		})
+	case "sig-ans-a":
+		script(func(m *dns.Msg) { m.Answer = []dns.RR{own, fakeSig(own, evilZone), rrA("www.victim.test.", forgedIP)} })
+	case "sig-ans-ns":
+		script(func(m *dns.Msg) {
+			m.Answer = []dns.RR{own, fakeSig(own, evilZone), rrNS(victimZone, "ns.evil.test.", dns.ClassINET)}
+		})
+	case "sig-ans-dname":
+		script(func(m *dns.Msg) {
+			m.Answer = []dns.RR{own, fakeSig(own, evilZone),
+				&dns.DNAME{Hdr: dns.RR_Header{Name: victimZone, Rrtype: dns.TypeDNAME, Class: dns.ClassINET, Ttl: 300}, Target: evilZone}}
+		})
+	case "sig-ans-foreign-sig":
+		// the forged record carries its own "signature" too
+		script(func(m *dns.Msg) {
+			f := rrA("www.victim.test.", forgedIP)
+			m.Answer = []dns.RR{own, fakeSig(own, evilZone), f, fakeSig(f, evilZone)}
+		})
 	// ---- negative answers carrying foreign records
 	case "nx-soa-victim":
 		script(func(m *dns.Msg) {
@@ -548,7 +613,7 @@ func (s *sysState) attack(shape string, k int) (string, string) {
 			withOpt(m, rrA("ns.sub.evil.test.", ip))
 		})
 	// ---- spoofed datagrams in front of the victim server's genuine reply
-	case "pre-wrongid", "pre-wrongq", "pre-wrongboth", "pre-noq", "pre-twoq", "pre-wrongtype", "pre-wrongclass":
+	case "pre-wrongid", "pre-manystrays", "pre-manystrays-mixed", "pre-wrongq", "pre-wrongboth", "pre-noq", "pre-twoq", "pre-wrongtype", "pre-wrongclass":
 		trigger = fmt.Sprintf("h%d.victim.test.", 1+k%8)
 		s.spoof[lcn(trigger)] = func(req *dns.Msg) []*dns.Msg {
 			m := new(dns.Msg)
@@ -562,6 +627,20 @@ func (s *sysState) attack(shape string, k int) (string, string) {
 				m2 := m.Copy()
 				m2.Id = req.Id + 1
 				return []*dns.Msg{m, m2}
+			case "pre-manystrays", "pre-manystrays-mixed":
+				// 5..10 datagrams with other IDs, all echoing the right question (or, "mixed",
+				// every other one another question) and all carrying the forged answer
+				var out []*dns.Msg
+				for i := 0; i < 5+k%6; i++ {
+					x := m.Copy()
+					x.Id = req.Id + uint16(1+i*257)
+					if shape == "pre-manystrays-mixed" && i%2 == 0 {
+						x.Question[0].Name = "www.victim.test."
+						x.Answer = []dns.RR{rrA("www.victim.test.", forgedIP)}
+					}
+					out = append(out, x)
+				}
+				return out
 			case "pre-wrongq":
 				m.Question[0].Name = "www.victim.test."
 				m.Answer = []dns.RR{rrA("www.victim.test.", forgedIP)}
@@ -605,7 +684,7 @@ func (s *sysState) attack(shape string, k int) (string, string) {
 		}
 		for _, sec := range [][]dns.RR{m.Ns, m.Extra} {
 			for _, rr := range sec {
-				if rr.Header().Rrtype != dns.TypeOPT && !inAttackerZone(rr.Header().Name) && !s.w.Published(rr) {
+				if rr.Header().Rrtype != dns.TypeOPT && !inAttackerZone(rr.Header().Name) && !s.genuine(rr) {
 					tags = "neg-relays-foreign-section-record"
 				}
 			}
@@ -623,13 +702,13 @@ func (s *sysState) attack(shape string, k int) (string, string) {
 		for _, sec := range [][]dns.RR{m.Answer, m.Ns, m.Extra} {
 			for _, rr := range sec {
 				h := rr.Header()
-				if h.Rrtype == dns.TypeOPT || inAttackerZone(h.Name) || s.w.Published(rr) {
+				if h.Rrtype == dns.TypeOPT || inAttackerZone(h.Name) || s.genuine(rr) {
 					continue
 				}
 				if c := s.cached(h.Name, h.Rrtype); c != nil {
 					for _, csec := range [][]dns.RR{c.Answer, c.Ns, c.Extra} {
 						for _, crr := range csec {
-							if crr.Header().Rrtype != dns.TypeOPT && !inAttackerZone(crr.Header().Name) && !s.w.Published(crr) && or == "ok" {
+							if crr.Header().Rrtype != dns.TypeOPT && !inAttackerZone(crr.Header().Name) && !s.genuine(crr) && or == "ok" {
 								or = fail("l3/attack/foreign-section-record-cached-under-its-own-name", "%s", rrText(crr))
 							}
 						}
@@ -655,7 +734,8 @@ var allShapes = []string{
 	"nx-soa-victim", "nodata-extra",
 	"ref-self", "ref-up", "ref-root", "ref-side", "ref-mixed", "ref-class", "ref-offpath",
 	"glue-oob", "glue-strsuffix", "glue-notns", "glue-loop", "glue-local",
-	"pre-wrongid", "pre-wrongq", "pre-wrongboth", "pre-noq", "pre-twoq", "pre-wrongtype", "pre-wrongclass",
+	"sig-cname-forged", "sig-ans-a", "sig-ans-ns", "sig-ans-dname", "sig-ans-foreign-sig",
+	"pre-wrongid", "pre-manystrays", "pre-manystrays-mixed", "pre-wrongq", "pre-wrongboth", "pre-noq", "pre-twoq", "pre-wrongtype", "pre-wrongclass",
 }
 
 func execL3(f []string) vlib.Res {
@@ -665,7 +745,7 @@ func execL3(f []string) vlib.Res {
 		if len(f) > 3 {
 			qmin = vlib.Atoi(f[3])
 		}
-		sysNew(f[2], qmin)
+		sysNew(f[2], qmin, len(f) > 4 && f[4] == "sec")
 		return vlib.Res{Impl: "ok", Oracle: "-"}
 	case "close":
 		sysClose()
